@@ -27,14 +27,33 @@ attribute [local instance] StringsGen.t64
 
 /-! ## The generated binding table -/
 
+/-- The six view built-ins whose closure in basic.rs AND body in string.rs are
+covered end to end by theorems over generated DEFINITIONS (`view_builtins_spec`,
+`lines_builtins_are_model` below): the text of their local conversions (`args`,
+`pre`) and of their body (`std`) needs no textual tie — renaming a closure local
+changes nothing; everything else about these rows (script type, name, kind,
+parameter/return types, documentation sentence, called method) stays compared. -/
+def provedEndToEnd : List (String × String) :=
+  [("StringBytes", "get"), ("StringBytes", "slice"), ("StringChars", "get"), ("StringChars", "slice"),
+   ("StringLines", "get"), ("StringLines", "slice")]
+
+def blankProved (r : Row) : Row :=
+  if provedEndToEnd.contains (r.script, r.name) then { r with args := [], pre := [], std := "" } else r
+
 /-- Every built-in registered in basic.rs (95 on this tree) is bound, under its
 documented script type, name, kind, parameter/return types and documentation
 sentence, to the Rust std / inetnum operation that documentation names
 (`floor ↦ f64::floor`, `pow ↦ powf`, `contains ↦ str.contains(needle)`,
 `to_string ↦ ToString::to_string`, `max_addr ↦ Prefix::max_addr`, …), with the
-documented argument order and `u64 → usize` conversions. -/
+documented argument order and `u64 → usize` conversions (for the six rows of
+`provedEndToEnd` the conversions and the body are the generated definitions'). -/
 theorem bindings_identity :
-    Gen.Bindings.table.map Row.ofBinding = documented := by decide +kernel
+    (Gen.Bindings.table.map Row.ofBinding).map blankProved = documented.map blankProved := by
+  decide +kernel
+
+/-- the exemption touches exactly the six rows, all of which are registered -/
+example : (documented.filter fun r => blankProved r != r).map (fun r => (r.script, r.name)) = provedEndToEnd := by
+  decide +kernel
 
 /-- non-vacuity: the table is not empty and really contains, e.g., `f64.ceil ↦ f64::ceil`. -/
 example : (lookup "f64" "ceil").map (·.std) = some "f64::ceil" ∧ documented.length = 95 := by
